@@ -122,6 +122,17 @@ func (c *c10ctx) walk(ki *kmerindex.Index, what string, osq *linear.Seq, valid [
 	}
 }
 
+// declared is the alphabet a walked sequence (not the indexed one) says it is over: the index's own, or - every second
+// time - none or another one (a read kept as redundant DNA, an RNA query, ...). Which windows are valid and what their
+// words are is the index's business: it was built over its own alphabet.
+func (c *c10ctx) declared() alphabet.Alphabet {
+	if c.r.Rng.Intn(2) == 0 {
+		return c.a.a
+	}
+	c.r.Count("other_sequences_declaring_no_or_another_alphabet", 1)
+	return []alphabet.Alphabet{nil, alphabet.DNAredundant, alphabet.RNA, alphabet.RNAredundant, alphabet.Protein, alphabet.DNA}[c.r.Rng.Intn(6)]
+}
+
 // otherLengths: the index walks fresh sequences of exactly k letters (one window), k+1, several times the indexed
 // length (whole and a tail ending at the last letter), and shorter than k (error or nothing); state says whether
 // the index has been built yet - a walk does not depend on that.
@@ -141,7 +152,7 @@ func (c *c10ctx) otherLengths(state string) {
 			junk = 0 // mostly a clean word, so that the one window is there
 		}
 		o := c10Fresh(rng, c.a, m, junk)
-		osq := linear.NewSeq("other", alphabet.BytesToLetters(append([]byte(nil), o...)), c.a.a)
+		osq := linear.NewSeq("other", alphabet.BytesToLetters(append([]byte(nil), o...)), c.declared())
 		ov, ow := c10Ref(c.a, o, k)
 		what := fmt.Sprintf(" (%s) over another sequence of %d letters %.40q", state, m, o)
 		c.walk(c.ki, what, osq, ov, ow, 0, m, nil)
@@ -167,7 +178,7 @@ func (c *c10ctx) otherLengths(state string) {
 func (c *c10ctx) reentrant() {
 	rng, k := c.r.Rng, c.k
 	o := c10Near(rng, c.a, c.s, k, 400)
-	osq := linear.NewSeq("query", alphabet.BytesToLetters(append([]byte(nil), o...)), c.a.a)
+	osq := linear.NewSeq("query", alphabet.BytesToLetters(append([]byte(nil), o...)), c.declared())
 	ov, ow := c10Ref(c.a, o, k)
 	what := fmt.Sprintf(" (callback queries the index) over another sequence %.40q", o)
 	calls, nested, quiet := 0, 0, false
